@@ -550,6 +550,7 @@ type rcJ struct {
 type reqJ struct {
 	A string `json:"a"`
 	V []int  `json:"v"`
+	B []int  `json:"b"` // shadow only: the balance the probe started from
 }
 
 type shJ struct {
@@ -598,7 +599,7 @@ func (x *Exec) effOf(c *sim.TxCapture, sh sim.ShadowResult, wsh sim.WasmShadowRe
 	e := effJ{Req: []reqJ{}, Burnt: nz(sim.Limbs(c.Burnt)), Term: nz(sim.Limbs(c.Term)), Deployed: []string{}, Commits: c.Commit,
 		Sh: shJ{Writes: [][3]string{}, Keep: []string{}, Moved: []int{}, Req: []reqJ{}}}
 	for a, v := range c.Requested() {
-		e.Req = append(e.Req, reqJ{A: x.W.Name(a), V: nz(sim.Limbs(v))})
+		e.Req = append(e.Req, reqJ{A: x.W.Name(a), V: nz(sim.Limbs(v)), B: []int{}})
 	}
 	sort.Slice(e.Req, func(i, j int) bool { return e.Req[i].A < e.Req[j].A })
 	for _, a := range c.Wasm {
@@ -614,7 +615,7 @@ func (x *Exec) effOf(c *sim.TxCapture, sh sim.ShadowResult, wsh sim.WasmShadowRe
 		}
 		e.Sh.Moved = nz(sim.Limbs(sh.Moved))
 		for a, v := range sh.Req {
-			e.Sh.Req = append(e.Sh.Req, reqJ{A: x.W.Name(a), V: nz(sim.Limbs(v))})
+			e.Sh.Req = append(e.Sh.Req, reqJ{A: x.W.Name(a), V: nz(sim.Limbs(v)), B: nz(sim.Limbs(sh.Base[a]))})
 		}
 		sort.Slice(e.Sh.Req, func(i, j int) bool { return e.Sh.Req[i].A < e.Sh.Req[j].A })
 		if sh.Dest != nil {
@@ -634,22 +635,24 @@ func (x *Exec) effOf(c *sim.TxCapture, sh sim.ShadowResult, wsh sim.WasmShadowRe
 }
 
 // run executes one abstract operation on s (in place) and emits what happened.
-func (x *Exec) run(s *State, kind string, op Op, caseID int, step int) {
+// It reports whether the committed contract-relevant state may have changed (false: the operation
+// was refused, or every contract transaction of the block failed).
+func (x *Exec) run(s *State, kind string, op Op, caseID int, step int) bool {
 	n := s.N
 	x.Stats["ops"]++
 	switch op.M {
 	case "wait":
 		x.emptyBlocks(n, 4)
 		s.Last = nil
-		return
+		return true
 	case "longwait":
 		// an oracle voting can be terminated votingDuration + publicVotingDuration + 7 days of blocks after its start
 		x.emptyBlocks(n, 30400)
 		s.Last = nil
-		return
+		return true
 	case "fund":
 		if s.I.Addr == nil {
-			return
+			return false
 		}
 		amt := sim.Dna(300, 1)
 		if kind == "voting" {
@@ -665,7 +668,7 @@ func (x *Exec) run(s *State, kind string, op Op, caseID int, step int) {
 			panic(err)
 		}
 		s.Last = nil
-		return
+		return true
 	}
 	from := x.sender(s, op)
 	nonce := n.App.State.GetNonce(x.W.Addrs[from]) + 1
@@ -714,7 +717,7 @@ func (x *Exec) run(s *State, kind string, op Op, caseID int, step int) {
 		accepted = append(accepted, tx)
 	}
 	if len(accepted) == 0 {
-		return
+		return false
 	}
 	pre := s.Last
 	if pre == nil {
@@ -736,7 +739,7 @@ func (x *Exec) run(s *State, kind string, op Op, caseID int, step int) {
 			r.DB = nil
 		}
 		s.Last = nil
-		return
+		return true
 	}
 	rec := sim.NewRec()
 	if err := n.AddWith(sim.Encode(blk), rec); err != nil {
@@ -751,6 +754,7 @@ func (x *Exec) run(s *State, kind string, op Op, caseID int, step int) {
 	}
 	var lines []tr.M
 	undetermined := false
+	changed := false
 	for i, tx := range mined {
 		c := rec.Txs[i]
 		rc := n.Chain.GetReceipt(tx.Hash())
@@ -807,6 +811,7 @@ func (x *Exec) run(s *State, kind string, op Op, caseID int, step int) {
 			"eff": x.effOf(c, sh, wsh, rc.ContractAddress), "mid": i < len(mined)-1, "st": []acctJ{}, "err": errText, "need": need, "method": rc.Method}
 		lines = append(lines, line)
 		if rc.Success {
+			changed = true
 			x.Stats["tx_ok"]++
 		} else {
 			x.Stats["tx_fail"]++
@@ -831,7 +836,7 @@ func (x *Exec) run(s *State, kind string, op Op, caseID int, step int) {
 		// the first attempt (too little gas) succeeded nevertheless: no observation of the state in between
 		x.Stats["pair_first_succeeded"]++
 		s.Last = nil
-		return
+		return true
 	}
 	post := x.snapshot(s)
 	lines[len(lines)-1]["st"] = post
@@ -843,6 +848,7 @@ func (x *Exec) run(s *State, kind string, op Op, caseID int, step int) {
 		x.Out.Emit(l)
 	}
 	s.Last = post
+	return changed
 }
 
 // ---------------------------------------------------------------------------------------------
@@ -938,6 +944,10 @@ func main() {
 	// stack[j] = state after the first j operations of the current scenario
 	var stack []*State
 	var cur Case
+	// scratch: a clone of a branching state that is reused for consecutive operations that are not
+	// expected to progress, as long as they really changed nothing (failed / refused)
+	var scrBase, scr *State
+	scrUses := 0
 	for i, c := range cases {
 		shared := -1
 		if i > 0 {
@@ -950,7 +960,9 @@ func main() {
 				presets[c.W] = p
 			}
 			for _, old := range stack {
-				release(old)
+				if old != scr {
+					release(old)
+				}
 			}
 			root := &State{N: cloneNode(p.N), I: p.I.clone()}
 			root.I.Kind = c.C
@@ -961,7 +973,9 @@ func main() {
 			shared = len(stack) - 1
 		}
 		for _, old := range stack[shared+1:] {
-			release(old)
+			if old != scr {
+				release(old)
+			}
 		}
 		stack = stack[:shared+1]
 		keep := -1 // states up to this depth are needed by the next scenario
@@ -971,13 +985,30 @@ func main() {
 		for j := shared; j < len(c.Path); j++ {
 			top := stack[j]
 			var s *State
-			if j <= keep {
-				s = &State{N: cloneNode(top.N), I: top.I.clone(), Last: nil}
-			} else {
+			op := c.Path[j]
+			leaf := j == len(c.Path)-1
+			maxReuse := 6
+			if top.N.Chain.Head.Height() > 20000 {
+				maxReuse = 40 // cloning a long chain is expensive
+			}
+			switch {
+			case j > keep:
 				s = top
 				stack[j] = nil
+			case leaf && !op.Good && scr != nil && scrBase == top && scrUses < maxReuse:
+				s = scr
+				scrUses++
+			default:
+				s = &State{N: cloneNode(top.N), I: top.I.clone(), Last: nil}
+				if leaf && !op.Good {
+					release(scr)
+					scrBase, scr, scrUses = top, s, 1
+				}
 			}
-			x.run(s, c.C, c.Path[j], i, j)
+			changed := x.run(s, c.C, op, i, j)
+			if s == scr && changed {
+				scr, scrBase = nil, nil // (released when it is popped from the stack)
+			}
 			stack = append(stack, s)
 		}
 		cur = c
